@@ -581,7 +581,9 @@ func (hs *clientHandshakeState) doFullHandshake() error {
 		if clientAuthCert != nil && len(clientAuthCert.Certificate) > 0 {
 			certMsg.certificates = append(certMsg.certificates, clientAuthCert.Certificate[0])
 		}
-		if clientEncCert != nil && len(clientEncCert.Certificate) > 0 {
+		// 加密证书只能跟在签名证书之后：证书列表的第一张证书由服务端当作认证证书，
+		// 并要求随后的证书验证消息；没有签名证书时发送空的证书列表。
+		if len(certMsg.certificates) > 0 && clientEncCert != nil && len(clientEncCert.Certificate) > 0 {
 			certMsg.certificates = append(certMsg.certificates, clientEncCert.Certificate[0])
 		}
 
